@@ -40,7 +40,7 @@ func (p TPeer) UDP() *net.UDPAddr {
 }
 
 type TOp struct {
-	Kind    string // Q | P | U | H | Add | Age | QP | Probe | TM
+	Kind    string // Q | P | U | H | Add | Age | QP | Probe | TM | PBlock (a ping whose answer arrives after its sender was blocklisted)
 	Peer    int
 	Method  string
 	RO      bool
@@ -189,6 +189,8 @@ func genTable(t *rapid.T, bias string) TableSc {
 				op = TOp{Kind: "Add", Peer: peer("op.peer"), IDKind: rapid.SampledFrom([]string{"own", "own", "own", "own", "zero", "root"}).Draw(t, "op.idkind"), AltRep: rapid.IntRange(0, 2).Draw(t, "op.altrep") == 0}
 			case r < 80:
 				op = TOp{Kind: "Age", AgeMin: rapid.SampledFrom(tableAges).Draw(t, "op.age")}
+			case r < 83 && bias == "c06":
+				op = TOp{Kind: "PBlock", Peer: peer("op.peer")}
 			case r < 95:
 				op = TOp{Kind: "QP", K: rapid.IntRange(0, 63).Draw(t, "op.k"), Outcome: pick(t, "op.qpo", "silent", "silent", "silent", "answer", "answer", "error", "other-id", "root-id", "zero-id"), Alt: peer("op.alt")}
 			default:
@@ -230,6 +232,16 @@ func (r tableRef) good(e dht.VerifEntry, now time.Time) bool {
 		return true
 	}
 	return !e.LastGotQuery.IsZero() && now.Sub(e.LastGotQuery) < min15
+}
+
+// entryModel is the harness's own record of the liveness evidence for one (ID, address): when (in
+// virtual time: real time is negligible against the minute-grained ageing steps) the node last heard a
+// query / a completing response from it, and whether its last questionable-node ping failed. It is
+// maintained from the events the harness itself produced, never from the table's own fields.
+type entryModel struct {
+	lastQ, lastR time.Duration
+	hasQ, hasR   bool
+	failed       bool
 }
 
 type entryKey struct {
@@ -286,11 +298,102 @@ type tableMachine struct {
 	script map[string]TOp
 	viol   *kit.Violation
 	tseq   int
+	// PBlock: the reply a peer would have sent, kept back by the harness
+	heldReply func()
 	// statistics for the non-triviality rules
 	fullBucketNewcomer, offeredIneligible, droppedEntry, ninthInsert bool
 	probesNontrivial                                                 bool
 	// (address, ID) pairs from which a response completing one of the node's own queries was delivered
 	answered map[entryKey]bool
+	// independent liveness model (virtual clock); modelValid is false after a multi-event step
+	model      map[entryKey]*entryModel
+	vnow       time.Duration
+	modelValid bool
+}
+
+// isBad / isGood: the BEP 5 classification from the harness's own model of the evidence (falling back
+// on the raw stored timestamps only after the multi-event TableMaintainer step).
+func (m *tableMachine) isBad(e dht.VerifEntry) bool {
+	if !m.modelValid {
+		return m.ref.bad(e)
+	}
+	if e.ID == m.root || e.ID == ([20]byte{}) {
+		return true
+	}
+	if m.sc.Security && !refmodel.Bep42Exempt(e.IP) && !refmodel.Bep42Match(e.ID, e.IP) {
+		return true
+	}
+	em := m.model[keyOf(e)]
+	return em != nil && em.failed
+}
+
+func (m *tableMachine) isGood(e dht.VerifEntry) bool {
+	if !m.modelValid {
+		return m.ref.good(e, time.Now())
+	}
+	if m.isBad(e) {
+		return false
+	}
+	em := m.model[keyOf(e)]
+	if em == nil || !em.hasR {
+		return false
+	}
+	if m.vnow-em.lastR < min15 {
+		return true
+	}
+	return em.hasQ && m.vnow-em.lastQ < min15
+}
+
+func (m *tableMachine) everResponded(e dht.VerifEntry) bool {
+	if !m.modelValid {
+		return !e.LastGotResponse.IsZero()
+	}
+	em := m.model[keyOf(e)]
+	return em != nil && em.hasR
+}
+
+// updateModel applies one step's events to the liveness model (called after the step's checks).
+func (m *tableMachine) updateModel(post dht.VerifTableSnapshot, evs []tev, op TOp) {
+	if op.Kind == "TM" {
+		m.modelValid = false
+		return
+	}
+	if op.Kind == "Age" {
+		m.vnow += time.Duration(op.AgeMin) * time.Minute
+	}
+	postIdx := indexEntries(post)
+	for _, ev := range evs {
+		if !ev.hasID || ev.blocked {
+			continue
+		}
+		k := entryKey{ev.id, ev.addr}
+		if _, in := postIdx[k]; !in {
+			continue
+		}
+		em := m.model[k]
+		if em == nil {
+			em = &entryModel{}
+			m.model[k] = em
+		}
+		switch ev.kind {
+		case "query":
+			em.lastQ, em.hasQ = m.vnow, true
+		case "response":
+			em.lastR, em.hasR, em.failed = m.vnow, true, false
+		case "failping":
+			em.failed = true
+		}
+	}
+	for k := range m.model {
+		if _, in := postIdx[k]; !in {
+			delete(m.model, k)
+		}
+	}
+	for k := range postIdx {
+		if m.model[k] == nil {
+			m.model[k] = &entryModel{}
+		}
+	}
 }
 
 func (m *tableMachine) report(key, format string, a ...any) {
@@ -338,6 +441,10 @@ func (m *tableMachine) handle(i int) func(q SimQuery) []SimReply {
 		}
 		t := []byte(q.T)
 		switch op.Outcome {
+		case "hold":
+			data := mkResponse(t, stdReturn(id, contacts, nil))
+			m.heldReply = func() { m.sv.C.Inject(addr, data) }
+			return nil
 		case "silent":
 			return nil
 		case "answer":
@@ -444,7 +551,7 @@ func (m *tableMachine) checkC05(s dht.VerifTableSnapshot, what string) {
 			wantIndex[e.Addr] = map[[20]byte]bool{}
 		}
 		wantIndex[e.Addr][e.ID] = true
-		rb, rg := m.ref.bad(e), m.ref.good(e, now)
+		rb, rg := m.isBad(e), m.isGood(e)
 		if rb != e.Bad || rg != e.Good || e.Questionable != (!rb && !rg) {
 			m.report("C05:classification-disagrees", "%s: entry %x@%s (lastQ %v ago, lastR %v ago, failedPing=%v): package says good=%v bad=%v questionable=%v, BEP 5 rule says good=%v bad=%v", what, e.ID[:4], e.Addr,
 				sinceOrNever(e.LastGotQuery, now), sinceOrNever(e.LastGotResponse, now), e.FailedLastQuestionablePing, e.Good, e.Bad, e.Questionable, rg, rb)
@@ -550,7 +657,7 @@ func (m *tableMachine) checkC06(pre, post dht.VerifTableSnapshot, evs []tev, op 
 	multi := op.Kind == "TM"
 	evFor := func(k entryKey, kind string) *tev {
 		for i := range evs {
-			if evs[i].kind == kind && evs[i].hasID && evs[i].id == k.id && evs[i].addr == k.addr {
+			if evs[i].kind == kind && evs[i].hasID && !evs[i].blocked && evs[i].id == k.id && evs[i].addr == k.addr {
 				return &evs[i]
 			}
 		}
@@ -596,11 +703,11 @@ func (m *tableMachine) checkC06(pre, post dht.VerifTableSnapshot, evs []tev, op 
 		e := preIdx[k]
 		m.droppedEntry = true
 		switch {
-		case m.ref.good(e, preTime):
+		case m.isGood(e):
 			m.report("C06:good-entry-evicted", "%s: entry %x@%s was good (responded %v ago, queried %v ago) and was removed", what, k.id[:], k.addr, sinceOrNever(e.LastGotResponse, preTime), sinceOrNever(e.LastGotQuery, preTime))
-		case m.ref.bad(e):
+		case m.isBad(e):
 		case multi && evFor(k, "failping") != nil:
-		case e.LastGotResponse.IsZero() && admittedByResponse[e.Bucket]:
+		case !m.everResponded(e) && admittedByResponse[e.Bucket]:
 		default:
 			m.report("C06:unjustified-eviction", "%s: entry %x@%s (not bad; responded %v ago) was removed, but it is displaceable only if it never answered and the newcomer has just answered (events: %s)", what, k.id[:], k.addr, sinceOrNever(e.LastGotResponse, preTime), describeEvents(evs))
 		}
@@ -629,7 +736,7 @@ func (m *tableMachine) checkC06(pre, post dht.VerifTableSnapshot, evs []tev, op 
 						continue
 					}
 					count++
-					if m.ref.bad(e) || (ev.kind == "response" && e.LastGotResponse.IsZero()) {
+					if m.isBad(e) || (ev.kind == "response" && !m.everResponded(e)) {
 						room = true
 					}
 				}
@@ -779,7 +886,7 @@ func (m *tableMachine) probe1(op TOp, oi int, pre dht.VerifTableSnapshot) (pev t
 		if e.Bucket <= tb {
 			populated[e.Bucket] = true
 		}
-		if !m.ref.good(e, now) {
+		if !m.isGood(e) {
 			if e.Bucket <= tb {
 				impure = true
 			}
@@ -861,7 +968,7 @@ func (m *tableMachine) probe1(op TOp, oi int, pre dht.VerifTableSnapshot) (pev t
 					if !m.answered[keyOf(e)] {
 						m.report("C09:contact-never-answered", "%s: `%s` lists %x@%s, which never answered one of the node's own queries (by the harness's record of delivered replies)", what, field, id[:4], addr)
 					}
-					if !m.ref.good(e, now) {
+					if !m.isGood(e) {
 						m.report("C09:non-good-contact", "%s: `%s` lists %x@%s, which is not good (responded %v ago, queried %v ago, failedPing=%v, bad=%v)", what, field, id[:4], addr, sinceOrNever(e.LastGotResponse, now), sinceOrNever(e.LastGotQuery, now), e.FailedLastQuestionablePing, m.ref.bad(e))
 					}
 					got = append(got, e)
@@ -911,7 +1018,7 @@ func (m *tableMachine) probe1(op TOp, oi int, pre dht.VerifTableSnapshot) (pev t
 // ---- executor ----------------------------------------------------------------------------------------------------------
 
 func runTable(sc TableSc, c *kit.Case, clause string) *kit.Violation {
-	m := &tableMachine{sc: sc, c: c, clause: clause, root: arr20(sc.Root), script: map[string]TOp{}, answered: map[entryKey]bool{}}
+	m := &tableMachine{sc: sc, c: c, clause: clause, root: arr20(sc.Root), script: map[string]TOp{}, answered: map[entryKey]bool{}, model: map[entryKey]*entryModel{}, modelValid: true}
 	m.ref = tableRef{root: m.root, security: sc.Security}
 	opts := SrvOpts{NodeID: m.root, Security: sc.Security}
 	if len(sc.Blocked) > 0 {
@@ -1014,14 +1121,61 @@ func runTable(sc TableSc, c *kit.Case, clause string) *kit.Violation {
 				evs = append(evs, tev{kind: "add", addr: ua.String(), ip: ua.IP, id: id, hasID: true})
 			}
 			what += fmt.Sprintf(" (AddNode peer %d %s id=%x altrep=%v)", op.Peer, ua, id[:4], op.AltRep)
+		case "PBlock":
+			p := sc.Peers[op.Peer]
+			if m.isBlocked(net.IP(p.IP)) {
+				continue
+			}
+			sop := op
+			sop.Outcome = "hold"
+			m.script[p.UDP().String()] = sop
+			m.heldReply = nil
+			m.sv.C.DelayHook = func(int64, bool) time.Duration { return time.Hour }
+			ctx, cancel := context.WithCancel(context.Background())
+			qdone := make(chan struct{})
+			simnet.Go(func() {
+				defer close(qdone)
+				m.sv.S.Query(ctx, dht.NewAddr(p.UDP()), "ping", dht.QueryInput{})
+			})
+			if err := m.sv.C.Quiesce(barrierTimeout); err != nil {
+				cancel()
+				c.Inconclusive = err.Error()
+				return nil
+			}
+			delete(m.script, p.UDP().String())
+			// the address becomes blocked while the query is outstanding; then its answer arrives
+			if m.blocked == nil {
+				m.blocked = &blockSet{}
+			}
+			m.blocked.ips = append(m.blocked.ips, net.IP(p.IP))
+			m.sv.S.SetIPBlockList(m.blocked)
+			if m.heldReply != nil {
+				m.heldReply()
+				evs = append(evs, tev{kind: "response", addr: p.UDP().String(), ip: net.IP(p.IP), id: m.peerID(op.Peer), hasID: true, blocked: true})
+			}
+			if err := m.sv.C.Quiesce(barrierTimeout); err != nil {
+				cancel()
+				c.Inconclusive = err.Error()
+				return nil
+			}
+			select {
+			case <-qdone:
+				cancel()
+				m.report("C06:blocked-reply-completed-query", "%s: the answer from %v, blocklisted while the query was outstanding, completed the query", what, p.UDP())
+			default:
+				cancel()
+				<-qdone
+			}
+			m.sv.C.DelayHook = nil
+			m.offeredIneligible = true
+			what += fmt.Sprintf(" (peer %d %s blocklisted while its ping was outstanding)", op.Peer, p.UDP())
 		case "Age":
 			m.sv.S.VerifAge(time.Duration(op.AgeMin) * time.Minute)
 			what += fmt.Sprintf(" (%d min)", op.AgeMin)
 		case "QP":
-			now := time.Now()
 			var cands []dht.VerifEntry
 			for _, e := range pre.Entries {
-				if !m.ref.bad(e) && !m.ref.good(e, now) {
+				if !m.isBad(e) && !m.isGood(e) {
 					cands = append(cands, e)
 				}
 			}
@@ -1092,8 +1246,9 @@ func runTable(sc TableSc, c *kit.Case, clause string) *kit.Violation {
 			}
 		}
 		post := m.sv.S.VerifTable()
-		m.checkC05(post, "after "+what)
 		m.checkC06(pre, post, evs, op, what, preTime)
+		m.updateModel(post, evs, op)
+		m.checkC05(post, "after "+what)
 		if m.viol != nil {
 			return m.viol
 		}
